@@ -88,7 +88,7 @@ local function zzmkl(k: auto) <noinline> return zzmk(k) end
 class Printer:
     """Prints test functions; every ('call',..) node becomes its own Nelua function."""
 
-    RETMODES = ("call", "int", "rec", "arr")
+    RETMODES = ("call", "int", "rec", "arr", "pair")
 
     def __init__(self, rng=None):
         self.funcs = []      # text of function definitions, callee first
@@ -167,17 +167,22 @@ class Printer:
             if m == "int": return [p + "rv = zzxv(%d) return rv" % s[1]]
             if m == "rec": return [p + "rv.v = zzxv(%d) return rv" % s[1]]
             if m == "arr": return [p + "rv[1] = zzxv(%d) return rv" % s[1]]
+            # two returned values (the _mulret path of visitors.Return): the second one reads the clock right
+            # after the first was evaluated; the caller checks second == first + 1
+            if m == "pair": return [p + "return zzxv(%d), clock" % s[1]]
             return [p + "return zzxv(%d)" % s[1]]
         if t == 'retvoid':
             return [p + "return;"]
         if t == 'call':
             name = self.function(s[1], s[2])
+            if not s[1] and self.modes[name] == "pair":
+                return [p + "do local pa, pb = %s() if pb ~= pa + 1 then pa = -9 end zzpv(pa) end" % name]
             return [p + (name + "()" if s[1] else "zzpv(" + self.value_of(name) + ")")]
         raise ValueError(t)
 
     def value_of(self, name):
         m = self.modes[name]
-        return name + {"call": "()", "int": "()", "rec": "().v", "arr": "()[1]"}[m]
+        return name + {"call": "()", "int": "()", "rec": "().v", "arr": "()[1]", "pair": "()"}[m]
 
     def function(self, void, body, name=None):
         mode = "call"
@@ -190,15 +195,15 @@ class Printer:
             self.nfun += 1
             name = "zf%d" % self.nfun
         self.modes[name] = mode
-        rett = {"call": "integer", "int": "integer", "rec": "Rv", "arr": "[2]integer"}[mode]
+        rett = {"call": "integer", "int": "integer", "rec": "Rv", "arr": "[2]integer", "pair": "(integer, integer)"}[mode]
         decl = {"call": [], "int": ["  local rv: integer = 0"], "rec": ["  local rv: Rv = {v=0, w=0}"],
-                "arr": ["  local rv: [2]integer = {0, 0}"]}[mode]
+                "arr": ["  local rv: [2]integer = {0, 0}"], "pair": []}[mode]
         head = "local function %s()%s <noinline>" % (name, "" if void else ": " + rett)
         self.funcs.append("\n".join([head] + decl + body_lines + ["end"]))
         return name
 
 
-def print_program(tests, rng=None):
+def print_program_ex(tests, rng=None):
     """tests: list of (void, body).  Returns the Nelua source; test i is function zt<i>.
     With rng, about half of the value-returning functions return a bare variable (see Printer)."""
     pr = Printer(rng)
@@ -208,11 +213,20 @@ def print_program(tests, rng=None):
             "nscript = #arg - 1",
             "for i=2,#arg do script[i-2] = tointeger(arg[i]) end"]
     for i, (void, _) in enumerate(tests):
-        call = "zt%d()" % i if void else "zzpv(%s)" % pr.value_of("zt%d" % i)
+        if void:
+            call = "zt%d()" % i
+        elif pr.modes["zt%d" % i] == "pair":
+            call = "do local pa, pb = zt%d() if pb ~= pa + 1 then pa = -9 end zzpv(pa) end" % i
+        else:
+            call = "zzpv(%s)" % pr.value_of("zt%d" % i)
         main.append("%s which == %d then %s" % ("if" if i == 0 else "elseif", i, call))
     main.append("end")
     main.append("print('Z')")
-    return PRELUDE + "\n\n".join(pr.funcs) + "\n\n" + "\n".join(main) + "\n"
+    return PRELUDE + "\n\n".join(pr.funcs) + "\n\n" + "\n".join(main) + "\n", {n for n, m in pr.modes.items() if m == "pair"}
+
+
+def print_program(tests, rng=None):
+    return print_program_ex(tests, rng)[0]
 
 
 def print_program_toplevel(body, rng=None):
@@ -226,6 +240,84 @@ def print_program_toplevel(body, rng=None):
             "for i=2,#arg do script[i-2] = tointeger(arg[i]) end",
             "defer print('Z') end"]
     return PRELUDE + "\n\n".join(pr.funcs) + "\n\n" + "\n".join(head + lines) + "\n"
+
+
+# ------------------------------------------------------------------ Lua 5.4 printer (third voice for <close>)
+LUA_PRELUDE = r"""
+local script, pos, clock = {}, 0, 0
+local function zzlog(t, n) print(t .. n) clock = clock + 1 end
+local function zznext()
+  if pos >= #script then print('X') os.exit(0) end
+  pos = pos + 1
+  return script[pos]
+end
+local function zzev(k) zzlog('E', k) end
+local function zzrg(k) zzlog('G', k) end
+local function zzcd(c) local v = zznext() zzlog('C', c) return v ~= 0 end
+local function zzxv(e) local v = clock zzlog('R', e) return v end
+local function zzpv(v) zzlog('V', v) end
+local Cl = {__close = function(self) zzlog('U', self.k) end}
+local function zzmk(k) return setmetatable({k = k}, Cl) end
+"""
+
+
+class LuaPrinter:
+    """The Lua-expressible subset (to-be-closed variables, no defer/continue/switch/do-expression) printed as Lua 5.4."""
+
+    def __init__(self):
+        self.funcs = []
+        self.nfun = 0
+
+    def block(self, b, ind):
+        out = []
+        for s in b:
+            out += self.stmt(s, ind)
+        return out
+
+    def stmt(self, s, ind):
+        p = "  " * ind
+        t = s[0]
+        if t == 'emit': return [p + "zzev(%d)" % s[1]]
+        if t == 'close':
+            # Lua 5.4 allows one to-be-closed variable per declaration: consecutive declarations (closed in
+            # reverse order) are what the reference semantics gives to a multi-variable <close> declaration
+            return [p + " ".join("local c%d <close> = zzmk(%d)" % (k, k) for k, _ in s[1]),
+                    p + " ".join("zzrg(%d)" % k for k, _ in s[1])]
+        if t == 'do': return [p + "do"] + self.block(s[1], ind + 1) + [p + "end"]
+        if t == 'if':
+            r = [p + "if zzcd(%d) then" % s[1]] + self.block(s[2], ind + 1)
+            if s[3]:
+                r += [p + "else"] + self.block(s[3], ind + 1)
+            return r + [p + "end"]
+        if t == 'while': return [p + "while zzcd(%d) do" % s[1]] + self.block(s[2], ind + 1) + [p + "end"]
+        if t == 'repeat': return [p + "repeat"] + self.block(s[1], ind + 1) + [p + "until zzcd(%d)" % s[2]]
+        if t == 'for': return [p + "for _i=1,%d do" % s[1]] + self.block(s[2], ind + 1) + [p + "end"]
+        if t == 'break': return [p + "do break end"]
+        if t == 'return': return [p + "do return zzxv(%d) end" % s[1]]
+        if t == 'retvoid': return [p + "do return end"]
+        if t == 'call':
+            name = self.function(s[1], s[2])
+            return [p + (name + "()" if s[1] else "zzpv(" + name + "())")]
+        raise ValueError("not in the Lua subset: %s" % t)
+
+    def function(self, void, body, name=None):
+        lines = self.block(body, 1)
+        if name is None:
+            self.nfun += 1
+            name = "zf%d" % self.nfun
+        self.funcs.append("\n".join(["local function %s()" % name] + lines + ["end"]))
+        return name
+
+
+def print_lua(tests):
+    pr = LuaPrinter()
+    for i, (void, body) in enumerate(tests):
+        pr.function(void, body, name="zt%d" % i)
+    main = ["local which = tonumber(arg[1])", "for i=2,#arg do script[i-1] = tonumber(arg[i]) end",
+            "local tests = {" + ", ".join("zt%d" % i for i in range(len(tests))) + "}",
+            "local voids = {" + ", ".join("true" if v else "false" for v, _ in tests) + "}",
+            "if voids[which+1] then tests[which+1]() else zzpv(tests[which+1]()) end", "print('Z')"]
+    return LUA_PRELUDE + "\n\n".join(pr.funcs) + "\n\n" + "\n".join(main) + "\n"
 
 
 # ------------------------------------------------------------------ tokenizer of the emitted C
@@ -274,29 +366,47 @@ def c_functions(ctext):
     return {m.group(1): m.group(2) for m in FUNC_RE.finditer(ctext)}
 
 
-def c_tokens(name, funcs, depth=0):
-    """Token list of function `name`, callees inlined as call( ... )."""
+def c_tokens(name, funcs, depth=0, pairs=()):
+    """Token list of function `name`, callees inlined as call( ... ).  For a callee returning two values the
+    call site is `do local pa, pb = f() if pb ~= pa + 1 then pa = -9 end zzpv(pa) end`: its wrapper tokens
+    ({ ... if { } V }) are folded into the `V call( ... )` the model prints."""
     if depth > 60:
         raise RuntimeError("call nesting too deep")
     body = funcs[name]
     body = re.sub(r"=[ ]*(?:\([\w ]+\))?\{[^;\n]*\};", ";", body)    # aggregate initialisers of the rv variable
     out = []
+    skipq = []
+
+    def put(toks):
+        for t in toks:
+            if skipq and t == skipq[0]:
+                skipq.pop(0)
+                continue
+            out.append(t)
     for m in TOKEN_RE.finditer(body):
         k = m.lastgroup
         if k == "ret":
             # `return zzxv(e);` and `return tmp;` both read  R<e>? return  (the model prints TReturn the same way)
             mm = re.search(r"_zzxv\((\d+)\)", m.group("retexpr") or "")
-            out += (["R" + mm.group(1)] if mm else []) + ["return"]
+            put((["R" + mm.group(1)] if mm else []) + ["return"])
         elif k in SIMPLE:
-            out += SIMPLE[k]
+            put(SIMPLE[k])
         elif k in ("E", "C", "R"):
-            out.append(k + m.group(k))
+            put([k + m.group(k)])
         elif k == "G":
-            out.append("G" + m.group(k))
+            put(["G" + m.group(k)])
         elif k in ("U", "U2"):
-            out.append("U" + m.group(k))
+            put(["U" + m.group(k)])
         elif k == "call":
-            out += ["call("] + c_tokens(m.group("call"), funcs, depth + 1) + [")"]
+            inner = c_tokens(m.group("call"), funcs, depth + 1, pairs)
+            if m.group("call") in pairs:
+                if not out or out[-1] != "{":
+                    raise RuntimeError("two-value call site without its wrapper block")
+                out.pop()
+                out.extend(["V", "call("] + inner + [")"])
+                skipq[:] = ["if", "{", "}", "V", "}"]
+            else:
+                put(["call("] + inner + [")"])
     # canonicalise: an empty `else { }` is dropped (the model prints no else for an empty block)
     res = []
     i = 0
@@ -317,13 +427,15 @@ class Gen:
     blocks no early `in` and no break-inside-switch are generated: such a block emitted at two exits gets
     duplicate C labels (a C03 matter, unrelated to the clean-up placement)."""
 
-    def __init__(self, rng, allow_ft_defer=True, allow_escape=False, allow_nested_defer=True, any_late=True, maxdepth=4):
+    def __init__(self, rng, allow_ft_defer=True, allow_escape=False, allow_nested_defer=True, any_late=True, misplace=False, lua_subset=False, maxdepth=4):
         self.rng = rng
         self.n = 0
         self.allow_ft_defer = allow_ft_defer
         self.allow_escape = allow_escape
         self.allow_nested_defer = allow_nested_defer
         self.any_late = any_late
+        self.misplace = misplace      # exits may be placed where the analyzer must reject them
+        self.lua_subset = lua_subset  # only constructs Lua 5.4 has: <close> (no defer), no continue/switch/do-expression
         self.maxdepth = maxdepth
 
     def fresh(self):
@@ -434,12 +546,15 @@ class Gen:
     def exit_stmt(self, cx):
         opts = []
         if cx['loop']:
-            opts += [('continue',)] * 2
+            if not self.lua_subset:
+                opts += [('continue',)] * 2
             # a deferred block is emitted once per exit: a break label inside it would be emitted twice
             # (duplicate C label, a C03 matter) - keep `break`-inside-switch out of deferred blocks
             if not (cx['defer'] and cx.get('sw')): opts += [('break',)] * 2
         if cx['fn']: opts.append(('retvoid',) if cx['void'] else ('return', None))
         if cx['doexpr'] and not cx['defer']: opts.append(('in', None))
+        if self.misplace and self.rng.random() < 0.4:
+            opts = [('break',), ('continue',), ('retvoid',) if cx['void'] else ('return', None), ('in', None)]
         if not opts:
             return None
         s = self.rng.choice(opts)
@@ -453,6 +568,9 @@ class Gen:
         w = r.random()
         if w < 0.20 or (deep and w < 0.5):
             return ('emit', self.fresh())
+        if self.lua_subset and 0.20 <= w < 0.42 and not no_defer:
+            n = r.randint(1, 3)
+            return ('close', [(self.fresh(), False) for _ in range(n)])
         if w < 0.42 and not no_defer:
             if r.random() < 0.2:
                 n = r.randint(1, 3)
@@ -485,6 +603,14 @@ class Gen:
             return ('repeat', self.block(depth + 1, dict(cx, loop=True, sw=False), 1, 4), self.fresh())
         if w < 0.86:
             return ('for', r.randint(1, 3), self.block(depth + 1, dict(cx, loop=True, sw=False), 1, 4))
+        if self.lua_subset and w >= 0.86:
+            if w < 0.93:
+                return ('do', self.block(depth + 1, cx, 0, 3))
+            void = r.random() < 0.4
+            b = self.block(depth + 1, dict(loop=False, doexpr=False, void=void, fn=True, defer=False), 1, 4)
+            if not void:
+                b.append(('return', self.fresh()))
+            return ('call', void, b)
         if w < 0.92:
             c = self.fresh()
             ncase = r.randint(1, 3)
